@@ -891,7 +891,7 @@ func TestCheck(t *testing.T) {
 
 	t.Run("exhaustive-integer-boundaries", func(t *testing.T) { sweep(t, rec, kEnc) })
 
-	rec.Rapid(t, "encode", rec.N(12000, 40000), func(rt *rapid.T) {
+	rec.Rapid(t, "encode", rec.N(12000, 300000), func(rt *rapid.T) {
 		depth := rapid.SampledFrom([]int{0, 1, 2, 2, 3, 3, 3}).Draw(rt, "depth")
 		ty := abigen.Params(rt, "t", depth, abigen.Opts{})
 		v := abigen.Value(rt, "v", ty)
